@@ -1,4 +1,4 @@
-\* quick: two blocks of one Byzantine proposer (in one round, or in rounds 0 and 4 with the rounds of the correct proposers in between), the second one unrelated or the twin of the first (same header, other body); the Byzantine validator votes as it likes; proposals of correct proposers reach everybody or nobody; every explored transition is exported
+\* thorough: two blocks of one Byzantine proposer - built in one round (it shows B to some and B2 to others) or in rounds 0 and 4 with the rounds of the correct proposers in between - the second one unrelated to the first or its twin (same header, other body); the Byzantine validator votes as it likes; a proposal of a correct proposer reaches everybody or nobody; every explored transition is exported
 SPECIFICATION Spec
 CONSTANTS
   Guard = "AsRequired"
@@ -12,6 +12,7 @@ CONSTANTS
   ByzVotes = "free"
   Loss = "all"
   Serve = "any"
+  Equiv = TRUE
 INVARIANTS TypeOK VotesOnlyFullyValid PersistOnlyApplicable NoWedge
 ACTION_CONSTRAINT Edge
 VIEW View
